@@ -250,8 +250,12 @@ where
 
         let mut data = unsafe { vec.as_mut_bytes() };
         let mut pos = 0;
-        let mut last_offset_slot = None::<&mut [u8]>;
+        // Offset slot of the previous item and the offset that seals it.
+        let mut last = None::<(&mut [u8], L)>;
 
+        // Start from the empty vector and keep the contents valid after every item,
+        // so that a failure in the middle leaves a valid (shorter) vector behind.
+        L::zero().emplace(data)?;
         for item_emplacer in self.iter {
             if data.len() < offset_size {
                 return Err(Error {
@@ -263,22 +267,21 @@ where
             let item = item_emplacer.emplace(payload)?;
             let payload_size = ceil_mul(item.size(), FlexVec::<T, L>::ALIGN);
             let offset = offset_size + payload_size;
-            L::from_usize(offset)
+            let sealed = L::from_usize(offset)
                 .and_then(|o| if o < L::max_value() { Some(o) } else { None })
                 .ok_or(Error {
                     kind: ErrorKind::InsufficientSize,
                     pos,
-                })?
-                .emplace(offset_slot)?;
-            last_offset_slot = Some(offset_slot);
+                })?;
+            L::max_value().emplace(&mut *offset_slot)?;
+            if let Some((prev_slot, prev_sealed)) = last.take() {
+                prev_sealed.emplace(prev_slot)?;
+            }
+            last = Some((offset_slot, sealed));
 
             data = payload.split_at_mut(payload_size).1;
             pos += offset;
         }
-        match last_offset_slot {
-            Some(offset_slot) => L::max_value().emplace(offset_slot)?,
-            None => L::zero().emplace(data)?,
-        };
 
         Ok(vec)
     }
